@@ -346,6 +346,7 @@ pub fn check(hdr: &str, lines: &[String], trace: &[(String, String, Vec<String>)
                                 }
                                 if let Some(am) = assocs.get_mut(&act.addr) {
                                     am.observe_iin(f.iin1(), f.iin2());
+                                    am.note_seq(f.seq());
                                 }
                                 if f.fin() {
                                     ended_pre = Some(true);
@@ -652,6 +653,15 @@ pub fn check(hdr: &str, lines: &[String], trace: &[(String, String, Vec<String>)
 
         // ---------------------------------------------------------------- requests on the wire belong to the outstanding task
         for t in &requests {
+            // ---- C15: a new request never re-uses a sequence number used by one of the last requests or by an
+            // accepted fragment of a read series (a late fragment of an abandoned series would otherwise answer it)
+            if let Some(am) = assocs.get_mut(&t.0) {
+                let s = t.1[0] & 0x0F;
+                if am.used_seqs.contains(&s) && !am.tainted {
+                    fail(mon, hdr, "request_seq_fresh", "", &format!("op {k}: request {} to {} re-uses sequence {s} (recently used: {:?}): a stale fragment would match it", hex(&t.1), t.0, am.used_seqs));
+                }
+                am.note_seq(s);
+            }
             match &mut active {
                 Some(act) if act.addr == t.0 => {
                     let s = t.1[0] & 0x0F;
